@@ -94,20 +94,31 @@ def build(layout: str, budget: int, lineages: int, with_retry: bool, disable_val
     return cls(timeout=None, runtime=MonRuntime(BasicRuntime()), disable_validation=disable_validation)
 
 
-def run_variant(ex: Execution, layout: str, budget: int, lineages: int, with_retry: bool, dv: bool) -> dict[str, Any]:
+def run_variant(ex: Execution, layout: str, budget: int, lineages: int, with_retry: bool, dv: bool, resume: bool = False) -> dict[str, Any]:
     with EngineExec(ex, RunConfig(max_actions=80)) as e:
         wf = build(layout, budget, lineages, with_retry, dv)
         hd = wf.run(run_id="r1")
-        e.consume_stream(hd)
-        e.cfg.stop_when = lambda hh: hd.is_done() and hh.stream_done
+        state: dict[str, Any] = {"hd": hd, "wf": wf}
+        state["consumer"] = e.consume_stream(hd)
+        e.h.restart_marks = []
+        if resume:
+            # the context is serialized at an explorer-chosen quiescent point and the run continues on a fresh instance:
+            # the per-lineage recovery budget has to survive that
+            from vmc.engine import Action
+            from vmc.progs import make_resume_action
+
+            e.add_script([Action("snapshot+resume", make_resume_action(e, state, lambda: build(layout, budget, lineages, with_retry, dv)))])
+        e.cfg.stop_when = lambda hh: state["hd"].is_done() and hh.stream_done
         e.drive()
         h = e.h
+        hd = state["hd"]
         out = task_outcome(hd._result_task)
+        done_invs = [inv for inv in h.invocations if not (resume and type(inv.exc).__name__ == "CancelledError")]
         entries = [(inv.step, (getattr(inv.ev.input_event, "uid", 99) % 100) if isinstance(inv.ev, StepFailedEvent) else (inv.ev.uid % 100),
                     getattr(inv.ev, "step_name", None), type(inv.ev).__name__)
-                   for inv in h.invocations if inv.step not in ("start",)]
+                   for inv in done_invs if inv.step not in ("start",)]
         failed_events = [(ev.step_name, repr(ev.exception)) for ev in h.published if isinstance(ev, WorkflowFailedEvent)]
-        sfe = [inv.ev for inv in h.invocations if isinstance(inv.ev, StepFailedEvent)]
+        sfe = [inv.ev for inv in done_invs if isinstance(inv.ev, StepFailedEvent)]
         return {"outcome": out[0], "value": repr(out[1].result if isinstance(out[1], StopEvent) else out[1]),
                 "exc_type": type(out[1]).__name__ if out[0] == "exception" else None,
                 "entries": entries, "failed_events": failed_events, "stuck": e.stuck, "capped": e.capped,
@@ -115,15 +126,17 @@ def run_variant(ex: Execution, layout: str, budget: int, lineages: int, with_ret
                 "max_concurrency": h.max_concurrency}
 
 
-def execute(ex: Execution, layout: str, budget: int, lineages: int, with_retry: bool) -> tuple[Any, list[Any]]:
+def execute(ex: Execution, layout: str, budget: int, lineages: int, with_retry: bool, resume: bool = False) -> tuple[Any, list[Any]]:
     v: list[Any] = []
-    obs = run_variant(ex, layout, budget, lineages, with_retry, dv=False)
+    obs = run_variant(ex, layout, budget, lineages, with_retry, dv=False, resume=resume)
     w = {"layout": layout, "disable_validation": False}
+    if resume:
+        w["resumed_from_snapshot"] = True
     _check_against_reference(obs, layout, budget, lineages, with_retry, w, v)
     # same schedule with graph validation disabled: the observable trace must be identical
     ex2 = Execution(ex.taken)
     try:
-        obs2 = run_variant(ex2, layout, budget, lineages, with_retry, dv=True)
+        obs2 = run_variant(ex2, layout, budget, lineages, with_retry, dv=True, resume=resume)
         same = {k: obs[k] for k in obs if k != "max_concurrency"} == {k: obs2[k] for k in obs2 if k != "max_concurrency"} \
             and ex2.taken == ex.taken and ex2.arity == ex.arity
     except ReplayDivergence:
@@ -329,6 +342,13 @@ def programs(tier: str) -> list[Program]:
                                        execute(ex, layout, budget, lineages, with_retry)),
                                       max_dev=(None if lineages == 1 else (3 if q else 5)),
                                       min_concurrency=lineages))
+    # one snapshot + resume at every quiescent point: the recovery budget of a lineage survives serialization
+    for layout in ("wildcard", "scoped_owner", "ping_pong_scoped"):
+        for budget in ((1, 2) if q else (1, 2, 3)):
+            name = f"catch_resume({layout};budget={budget})"
+            ps.append(Program(name, {"layout": layout, "budget": budget, "lineages": 1, "resume": True},
+                              (lambda ex, layout=layout, budget=budget: execute(ex, layout, budget, 1, False, True)),
+                              max_dev=(3 if q else 5)))
     # failure of the other step (bad_b) under layouts that own it / do not own it
     for layout in ("scoped_other", "scoped_owner", "two_scoped", "scoped_other+wildcard"):
         name = f"catch_b({layout};budget=1)"
@@ -348,7 +368,8 @@ def programs(tier: str) -> list[Program]:
 RULE = ("handler layouts {none, wildcard, scoped(owner), scoped(other), scoped(other)+wildcard, two scoped, handler "
         "that stops / raises} x max_recoveries 1..3 x lineages that re-enter the failing step x two concurrent "
         "lineages x failing step with/without retries x disable_validation off/on x {one run; an instance that runs, gets "
-        "a failing step registered on its class, and runs again; the step registered before the first run} x all "
+        "a failing step registered on its class, and runs again; the step registered before the first run; one context "
+        "snapshot + resume on a fresh instance at every quiescent point} x all "
         "schedules; routing is "
         "compared with a reference owner map, handler entries per lineage with the budget, the outcome with the "
         "original exception + WorkflowFailedEvent, and the two validation settings with each other on the same "
